@@ -542,6 +542,14 @@ func ruleC04Quote(e *Env) {
 			ret = false
 			e.S.Bad(rule, site, "result", "a return hands back the marshalled text other than as the buffer quoted by the idiom", e.posOf(r), "")
 			return
+		} else if len(r.Results) == 2 && flow.IsNilConst(r.Results[1]) {
+			// any other success return is one of the two other forms, each the result of one call (the object writer,
+			// strconv.AppendUint — C04.forms reads them): a text built on the spot (a fast path for round sizes, a second
+			// way of quoting) is a string form this rule has not read
+			if c, ok := r.Results[0].(*ssa.Call); !ok || c.Call.StaticCallee() == nil {
+				e.S.Bad(rule, site, "result", "a further success return builds its own text ("+r.Results[0].String()+"): besides the object form, the number form and the one quoted text nothing is to be returned", e.posOf(r), "Size(1024) on a fast path for whole kibibytes")
+				return
+			}
 		}
 	}
 	if ret {
